@@ -277,7 +277,7 @@ def _codec_case(res, name, form):
 
 # ---------------- (c) fetcher graphs
 
-ANSWERS = ['text', 'bytes', 'none', 'nonepair', 'raises-oserror']
+ANSWERS = ['text', 'bytes', 'none', 'nonepair', 'raises-oserror', 'reenter', 'reenter-style']
 
 
 def _graph_case(res, n, edges, answer, case):
@@ -287,8 +287,10 @@ def _graph_case(res, n, edges, answer, case):
     sheets = {}
     for i in range(n):
         imports = ''.join(f'@import "{j}.css";' for (a, j) in edges if a == i)
-        sheets[f'http://v/{i}.css'] = imports + f'a{i}{{x:y}}'
+        # a syntax problem behind the imports: it has to be logged whatever the fetcher did in between
+        sheets[f'http://v/{i}.css'] = imports + f'a{i}{{x:y;w}} }}'
     calls = []
+    holder = []
 
     def fetcher(url):
         calls.append(url)
@@ -303,10 +305,17 @@ def _graph_case(res, n, edges, answer, case):
             raise OSError('virtual fetch failure')
         if answer == 'bytes':
             return ('utf-8', t.encode('utf-8'))
+        if answer == 'reenter':
+            # an application-wide parser whose fetcher normalises what it fetched with that same parser
+            inner = holder[0].parseString(f'b{{x:y;w}} }}')
+            inner.cssText
+        if answer == 'reenter-style':
+            holder[0].parseStyle('x:y;w;}')
         return (None, t)
 
     def go():
         p = cssutils.CSSParser(fetcher=fetcher)
+        holder.append(p)
         s = p.parseString(sheets['http://v/0.css'], href='http://v/0.css')
         t = s.cssText
         s2 = p.parseString(t, href='http://v/0.css')
@@ -314,6 +323,8 @@ def _graph_case(res, n, edges, answer, case):
         return s
 
     ok, s = _stage(res, 'fetch-graph', case, go)
+    if ok and cssutils.log.raiseExceptions is not True:
+        res.violation('C01.noraise', 'error-mode-not-restored@fetch-graph', case, True, cssutils.log.raiseExceptions)
     if ok:
         res.nontrivial += 1
         res.outcomes.add(h64(('graph', n, len(edges), answer, len(calls))))
